@@ -51,12 +51,28 @@ def anchors():
 _monitor = None
 
 
+class E(int):
+    """A cached value whose == is Python code (a dataclass, a record): comparing two mappings then runs bytecode
+    between the entries, where another thread can be scheduled.  Equal to the plain int it wraps."""
+
+    def __eq__(self, other):
+        a = int(self)
+        b = int(other) if isinstance(other, int) else other
+        return a == b
+
+    def __ne__(self, other):
+        return not self.__eq__(other)
+
+    __hash__ = int.__hash__
+
+
 def monitor():
     global _monitor
     if _monitor is None:
         cu = common.load('cacheutils')
         codes = [c for c in S.code_objects_of(cu)
                  if c.co_qualname.split('.')[0] in ('LRI', 'LRU')]
+        codes += [E.__eq__.__code__, E.__ne__.__code__]       # switch points inside the values' own comparison
         _monitor = S.Monitor(codes)
     return _monitor
 
@@ -82,10 +98,12 @@ def to_model_op(op):
 
 
 def make_do_op(cache):
+    wrap = E if getattr(cache, '_verif_slow_eq', False) else (lambda v: v)
+
     def do_op(op):
         n = op[0]
         if n == 'set':
-            cache[op[1]] = op[2]
+            cache[op[1]] = wrap(op[2])
             return None
         if n == 'getitem':
             return cache[op[1]]
@@ -126,7 +144,7 @@ def make_do_op(cache):
         if n == 'clear':
             return cache.clear()
         if n == 'eq':
-            return cache == dict(tuple(p) for p in op[1])
+            return cache == dict((k, wrap(v)) for k, v in op[1])
         if n == 'copy':
             return tuple(sorted(dict.items(cache.copy()), key=repr))
         if n == 'len':
@@ -168,13 +186,15 @@ def build(case):
         kw['on_miss'] = on_miss_fn
     cache = cls(max_size=case['max_size'], **kw)
     holder.append(cache)
+    if case.get('slow_eq'):
+        cache._verif_slow_eq = True
     if case.get('other') is not None:
         other = cls(max_size=max(4, len(case['other'])))
         for k, v in case['other']:
             other[k] = v
         cache._verif_other = other
     for k, v in case.get('prefill', []):
-        cache[k] = v
+        cache[k] = E(v) if case.get('slow_eq') else v
     model = Model(case['max_size'], case['cls'] == 'LRU', case.get('on_miss') or False)
     st0 = model.initial([tuple(p) for p in case.get('prefill', [])])
     return cache, model, st0
@@ -541,6 +561,12 @@ def two_cache_cases():
         # comparisons in both directions from two threads (each side may look at the other under its own lock)
         out.append({'cls': cls, 'max_size': 2, 'on_miss': False, 'prefill': [['a', 0], ['q', 5]], 'other': other,
                     'small': True, 'programs': [[['eq-other', other], ['set', 'c', 1]], [['other-eq', other]]]})
+        # a comparison whose per-entry == runs Python code, against a writer changing two entries: none of the three
+        # states the cache goes through equals the reference mapping
+        out.append({'cls': cls, 'max_size': 2, 'on_miss': False, 'prefill': [['x', 1], ['y', 2]], 'slow_eq': True,
+                    'small': True, 'programs': [[['eq', [['x', 1], ['y', 20]]]], [['set', 'x', 10], ['set', 'y', 20]]]})
+        out.append({'cls': cls, 'max_size': 2, 'on_miss': False, 'prefill': [['x', 1], ['y', 2]], 'slow_eq': True,
+                    'small': True, 'programs': [[['eq', [['y', 20], ['x', 1]]]], [['set', 'y', 20], ['set', 'x', 10]]]})
         # and updates in both directions
         out.append({'cls': cls, 'max_size': 3, 'on_miss': False, 'prefill': [['a', 1], ['b', 2]],
                     'other': [['a', 7], ['q', 5]], 'small': True, 'cross': True,
